@@ -33,7 +33,7 @@ def TopRegular : Particle → Bool
 
 /-- at the top of a content model: every child is decoded by a declaration of the model or left in the deque -/
 theorem acct_top (gas : Nat) (m : Mode) (p : Particle) (xs : List Node) (r : Out Inst) (hreg : TopRegular p = true)
-    (h : parseP gas m p xs = .ok r) : ∀ s ∈ xs, s ∈ r.rest ∨ DecodedBy m (levelElems p) s := by
+    (h : parseP gas m p xs = .ok r) : ∀ s ∈ xs, s ∈ r.rest ∨ DecodedBy m gas (levelElems p) s := by
   intro s hs
   cases p with
   | all ps co =>
@@ -97,7 +97,7 @@ theorem c07_strict_rejects_stranger_any_depth (ty : Ty) (x : Node) (hs : HasStra
         · rename_i hemp
           rcases acct_top gas .strict p x.kids r0 htop hr0 k hk with h1 | h1
           · rw [List.isEmpty_iff.mp hemp] at h1; simp at h1
-          · obtain ⟨q, ty', g, a, r', hmem, hname, hp⟩ := h1
+          · obtain ⟨q, ty', g, a, r', _, hmem, hname, hp⟩ := h1
             exact ih q ty' hmem hname.symm g a r' hp
         · simp at h
 
@@ -136,7 +136,7 @@ theorem c07_lax_keeps_stranger (p : Particle) (decls : List AttrDecl) (x s : Nod
       have hin : s ∈ r0.rest := by
         rcases acct_top gas .lax p x.kids r0 htop hr0 s hs with h1 | h1
         · exact h1
-        · obtain ⟨q, ty', _, _, _, hmem, hname, _⟩ := h1
+        · obtain ⟨q, ty', _, _, _, _, hmem, hname, _⟩ := h1
           exact absurd hname.symm (hstr q ty' hmem)
       have hne : r0.rest.isEmpty = false := by
         cases hr : r0.rest with
@@ -157,7 +157,7 @@ theorem c07_header_entries_kept (gas : Nat) (m : Mode) (ps : List Particle) (xs 
   constructor
   · rcases acct_parseP_all gas m ps true xs r h s hs with h1 | h1
     · simpa using h1
-    · obtain ⟨q, ty', _, _, _, hmem, hname, _⟩ := h1
+    · obtain ⟨q, ty', _, _, _, _, hmem, hname, _⟩ := h1
       exact absurd hname.symm (hstr q ty' hmem)
   · cases gas with
     | zero => simp [parseP] at h
@@ -170,7 +170,7 @@ theorem c07_header_entries_kept (gas : Nat) (m : Mode) (ps : List Particle) (xs 
 deque — in particular an occurrence beyond a member's maxOccurs, which the member does not decode. -/
 theorem c07_all_surplus_kept (gas : Nat) (m : Mode) (ps : List Particle) (xs : List Node) (r : Out Inst)
     (h : parseP gas m (.all ps false) xs = .ok r) (s : Node) (hs : s ∈ xs) :
-    s ∈ r.rest ∨ DecodedBy m (levelElemsL ps) s := by
+    s ∈ r.rest ∨ DecodedBy m gas (levelElemsL ps) s := by
   simpa using acct_parseP_all gas m ps false xs r h s hs
 
 /-! ### non-vacuity -/
